@@ -485,6 +485,8 @@ type bsearch struct {
 	key       *ssa.Parameter
 	// idxResult: the function hands out the position it found (int, bool); a wrapper turns it into the element
 	idxResult bool
+	// sentinel: the position is the only result and a negative value says "not found" (lowerBoundIndex(key) int)
+	sentinel bool
 }
 
 func (b *bsearch) hold(construct string, pos token.Pos, detail string) {
@@ -945,6 +947,19 @@ type bret struct {
 
 func (b *bsearch) foundReturns() (found, notFound []bret) {
 	for _, c := range returnCases(b.f) {
+		if b.sentinel && len(c.Vals) == 1 && c.Ret.Block() != b.f.Recover {
+			// a negative constant is the not-found answer, anything else a position
+			br := bret{ret: c.Ret, val: c.Vals[0], blk: c.At.Block(), facts: c.Facts, pos: instrPos(c.At), to: c.To}
+			if !br.pos.IsValid() {
+				br.pos = instrPos(c.Ret)
+			}
+			if k, isK := constInt(c.Vals[0]); isK && k < 0 {
+				notFound = append(notFound, br)
+			} else {
+				found = append(found, br)
+			}
+			continue
+		}
 		if len(c.Vals) != 2 || c.Ret.Block() == b.f.Recover {
 			continue
 		}
@@ -1399,13 +1414,33 @@ func runLookupBsearch(c *Ctx, r *RuleRun) {
 				continue
 			}
 			idx, okv := extractOf(call, 0), extractOf(call, 1)
+			sentinel := resultIs(h, types.Int)
+			if sentinel {
+				idx, okv = call, call
+			}
 			wrapped := idx != nil && okv != nil
+			// with a sentinel: "found" is idx >= 0 (true for 0 and 5, false for -1), "not found" is idx < 0
+			sentinelFact := func(at ssa.Instruction, want bool) bool {
+				facts := factsAt(at)
+				h0, any0 := evalFacts(facts, idx, 0)
+				h5, _ := evalFacts(facts, idx, 5)
+				hm, _ := evalFacts(facts, idx, -1)
+				if want {
+					return any0 && h0 && h5 && !hm
+				}
+				return any0 && !h0 && !h5 && hm
+			}
 			eachInstr(t.f, func(ins ssa.Instruction) {
 				ret, isRet := ins.(*ssa.Return)
 				if !isRet || len(ret.Results) != 2 || !wrapped {
 					return
 				}
 				switch {
+				case sentinel && isConstBool(retOperand(ret, 1), true):
+					i, isIdx := b.resultIndex(ret)
+					b.check(isIdx && i == stripValue(idx) && sentinelFact(ret, true), "wrapper hands out the element at the position found", instrPos(ret), "Entries[idx] under idx >= 0", "the wrapper of the position search does not return the element at the position the search found (or returns it although nothing was found)")
+				case sentinel && isConstBool(retOperand(ret, 1), false):
+					b.check(sentinelFact(ret, false), "wrapper answers not-found only when the search did", instrPos(ret), "not found under idx < 0", "the wrapper of the position search answers not-found although a position was found")
 				case isConstBool(retOperand(ret, 1), true):
 					i, isIdx := b.resultIndex(ret)
 					under := boolFactIs(ret, func(v ssa.Value) bool { return v == okv }, true)
@@ -1421,7 +1456,7 @@ func runLookupBsearch(c *Ctx, r *RuleRun) {
 				r.Undecided(p.FnName(t.f), t.role+": template", "", "the wrapper of the position search has a result this rule cannot read")
 				continue
 			}
-			b = &bsearch{p: p, f: h, r: r, fn: p.FnName(h), role: t.role, cont: cont, elemField: ef, key: hk, idxResult: true}
+			b = &bsearch{p: p, f: h, r: r, fn: p.FnName(h), role: t.role, cont: cont, elemField: ef, key: hk, idxResult: true, sentinel: sentinel}
 		}
 		b.run()
 	}
@@ -1477,6 +1512,13 @@ func runLookupIndexKeys(c *Ctx, r *RuleRun) {
 	for _, ref := range *encCall.Referrers() {
 		if ex, ok := ref.(*ssa.Extract); ok && ex.Index == 0 {
 			encBytes = ex
+			// handed through a checking wrapper (`encoded(block.Encode())` panics on the error and returns the bytes):
+			// the bytes are known to the rest of the function as the wrapper's result
+			for _, r2 := range *ex.Referrers() {
+				if wc, isCall := r2.(*ssa.Call); isCall && p.passThrough(wc) == ssa.Value(ex) {
+					encBytes = wc
+				}
+			}
 		}
 	}
 	nStart, nEnd, nOff, nLen := 0, 0, 0, 0
@@ -1812,7 +1854,7 @@ func positionHelper(p *Prog, f *ssa.Function, key *ssa.Parameter) (*ssa.Function
 			return
 		}
 		h := cl.Call.StaticCallee()
-		if h == nil || h.Pkg != f.Pkg || h.Signature.Recv() == nil || f.Signature.Recv() == nil || !resultIs(h, types.Int, types.Bool) {
+		if h == nil || h.Pkg != f.Pkg || h.Signature.Recv() == nil || f.Signature.Recv() == nil || !(resultIs(h, types.Int, types.Bool) || resultIs(h, types.Int)) {
 			return
 		}
 		if !types.Identical(h.Signature.Recv().Type(), f.Signature.Recv().Type()) || len(cl.Call.Args) < 2 || cl.Call.Args[0] != ssa.Value(f.Params[0]) {
